@@ -535,6 +535,9 @@ func run(p *props.Prop, args []string) int {
 		}
 	}
 
+	if exit == 0 {
+		inconclusive = append(inconclusive, props.StageFloors(p.ID, m)...)
+	}
 	if p.Floors != nil && exit == 0 {
 		inconclusive = append(inconclusive, p.Floors(m)...)
 	}
